@@ -33,6 +33,8 @@ func runC04(c *Ctx, r *Report) {
 	c04HandleOwnership(c, r)
 	c04DoneEndsLoop(c, r)
 	c04SubsliceIndex(c, r)
+	c04DropSignalsDone(c, r)
+	c04SentSliceGivenAway(c, r)
 }
 
 // ---- R04.2 -------------------------------------------------------------------
@@ -1344,4 +1346,176 @@ func caseChangesLoopState(cb, selBlock *ssa.BasicBlock) bool {
 		}
 	}
 	return false
+}
+
+// R04.15: the first record a verb drops for good comes with the done signal.
+// head (the one verb that originates downstream-done) must tell the producers
+// upstream to stop when it starts ignoring records, or an unbounded input
+// (yes | mlr head -n 0) is read forever. Per path: in a function that calls
+// SignalDownstreamDone with a constant true, every path through the record
+// branch (not end of stream) that does not append to the output list sends
+// the signal, or has found set the flag that is only set next to the send.
+func c04DropSignalsDone(c *Ctx, r *Report) {
+	r.Rule("R04.15", "the first record dropped comes with the done signal: in a verb function that originates downstream-done (SignalDownstreamDone(ch, true)), every path through the not-end-of-stream branch that appends nothing to the output list calls SignalDownstreamDone or has read as true the receiver flag that is stored true only in a block that sends the signal — a head that signals along with the last record it passes never signals for -n 0 and reads an endless input forever")
+	n := 0
+	for _, fn := range c.ModuleFunctions() {
+		if fn.Pkg == nil || fn.Blocks == nil || !strings.Contains(fn.Pkg.Pkg.Path(), "/pkg/transformers") {
+			continue
+		}
+		var sends []*ssa.Call
+		for _, b := range fn.Blocks {
+			for _, in := range b.Instrs {
+				if call, ok := in.(*ssa.Call); ok && strings.HasSuffix(CalleeName(&call.Call), ".SignalDownstreamDone") && len(call.Call.Args) == 2 {
+					if k, ok := call.Call.Args[1].(*ssa.Const); ok && k.Value != nil && k.Value.ExactString() == "true" {
+						sends = append(sends, call)
+					}
+				}
+			}
+		}
+		if len(sends) == 0 {
+			continue
+		}
+		n++
+		key := SSAName(fn) + ": drop paths"
+		// flags stored true in a sending block
+		flags := map[string]bool{}
+		for _, s := range sends {
+			for _, in := range s.Block().Instrs {
+				if st, ok := in.(*ssa.Store); ok {
+					if k, ok := st.Val.(*ssa.Const); ok && k.Value != nil && k.Value.ExactString() == "true" {
+						if _, name, ok := fieldAddrName(st.Addr); ok {
+							flags[name] = true
+						}
+					}
+				}
+			}
+		}
+		// and nowhere else
+		for _, b := range fn.Blocks {
+			for _, in := range b.Instrs {
+				if st, ok := in.(*ssa.Store); ok {
+					if _, name, ok := fieldAddrName(st.Addr); ok && flags[name] {
+						sending := false
+						for _, s := range sends {
+							if s.Block() == b {
+								sending = true
+							}
+						}
+						if !sending {
+							delete(flags, name)
+						}
+					}
+				}
+			}
+		}
+		bad := token.NoPos
+		pr := &PathRule{Fn: fn, Init: Facts{}}
+		pr.Transfer = func(f Facts, in ssa.Instruction, deferred bool) []Facts {
+			if call, ok := in.(*ssa.Call); ok {
+				if bi, ok := call.Call.Value.(*ssa.Builtin); ok && bi.Name() == "append" {
+					return []Facts{f.With("app")}
+				}
+				if strings.HasSuffix(CalleeName(&call.Call), ".SignalDownstreamDone") {
+					return []Facts{f.With("sig")}
+				}
+			}
+			return nil
+		}
+		pr.Branch = func(f Facts, cond ssa.Value, pol bool, iff *ssa.If) (Facts, bool) {
+			cond, pol = stripNot(cond, pol)
+			if _, name, ok := fieldLoadName(cond); ok {
+				if name == "EndOfStream" {
+					if pol {
+						return f.With("eos"), true
+					}
+					return f.With("rec"), true
+				}
+				if flags[name] && pol {
+					return f.With("flag"), true
+				}
+			}
+			return f, true
+		}
+		pr.AtReturn = func(f Facts, ret *ssa.Return) {
+			if f.Has("rec") && !f.Has("app") && !f.Has("sig") && !f.Has("flag") && bad == token.NoPos {
+				bad = ret.Pos()
+				if bad == token.NoPos {
+					bad = fn.Pos()
+				}
+			}
+		}
+		pr.Run()
+		if pr.Overflow {
+			r.Undecided("R04.15", key, c.Rel(fn.Pos()), "too many path states")
+			continue
+		}
+		r.Check(bad == token.NoPos, "R04.15", key, c.Rel(fn.Pos()), "every path that drops a record sends the signal or has seen it sent",
+			fmt.Sprintf("%s has a path through its record branch that appends nothing to the output and neither calls SignalDownstreamDone nor has found its sent-flag set: the producers upstream are not told to stop when records start being ignored, and an endless input is read forever", SSAName(fn)))
+	}
+	r.Floor("R04.15", "verb functions that originate downstream-done", n, 1)
+}
+
+// R04.16: what is sent on a channel is given away. A slice sent to another
+// goroutine shares its backing array with the sender's copy; re-slicing that
+// same slice afterwards (s = s[:0]) and appending to it overwrites what the
+// receiver is still reading.
+func c04SentSliceGivenAway(c *Ctx, r *Report) {
+	r.Rule("R04.16", "what is sent on a channel is given away: after a slice has been sent on a channel (send statement or send case of a select), the sending function does not re-slice that same slice (s[:0], s[:n]) — the result shares the backing array the receiving goroutine is reading; a fresh slice is made instead")
+	n := 0
+	for _, fn := range c.ModuleFunctions() {
+		if fn.Pkg == nil || fn.Blocks == nil || !IsModuleFunc(fn) {
+			continue
+		}
+		type sent struct {
+			v   ssa.Value
+			at  *ssa.BasicBlock
+			pos token.Pos
+		}
+		var sents []sent
+		for _, b := range fn.Blocks {
+			for _, in := range b.Instrs {
+				switch x := in.(type) {
+				case *ssa.Send:
+					if _, ok := x.X.Type().Underlying().(*types.Slice); ok {
+						sents = append(sents, sent{x.X, b, x.Pos()})
+					}
+				case *ssa.Select:
+					for _, st := range x.States {
+						if st.Dir == types.SendOnly && st.Send != nil {
+							if _, ok := st.Send.Type().Underlying().(*types.Slice); ok {
+								sents = append(sents, sent{st.Send, b, x.Pos()})
+							}
+						}
+					}
+				}
+			}
+		}
+		k := 0
+		for _, s := range sents {
+			n++
+			k++
+			key := fmt.Sprintf("%s: slice sent #%d", SSAName(fn), k)
+			bad := token.NoPos
+			for _, b := range fn.Blocks {
+				if !(b == s.at || blockReaches(s.at, b)) {
+					continue
+				}
+				for _, in := range b.Instrs {
+					sl, ok := in.(*ssa.Slice)
+					if !ok {
+						continue
+					}
+					if sl.X == s.v || sameValue(sl.X, s.v) {
+						if b == s.at && sl.Pos() < s.pos && !blockReachesSelf(b) {
+							continue // before the send
+						}
+						bad = sl.Pos()
+					}
+				}
+			}
+			r.Check(bad == token.NoPos, "R04.16", key, c.Rel(s.pos), "not re-sliced by the sender afterwards",
+				fmt.Sprintf("%s sends a slice on a channel and re-slices the same slice afterwards (%s): the new slice shares the backing array with what the receiving goroutine is reading, so later appends overwrite records that have not been written yet", SSAName(fn), c.Rel(bad)))
+		}
+	}
+	r.Floor("R04.16", "slices sent on channels", n, 5)
 }
